@@ -28,7 +28,9 @@ vars == <<cfg, phase, ti, last, used, sent, sleeps, tlog, script, result, past>>
 NoStrategy == [n |-> 0, codes |-> "na", excs |-> "na", bo |-> [fam |-> "na", a |-> 0, b |-> 0, max |-> -1, jit |-> <<>>]]
 
 \* a per-request strategy replaces the client-wide one; an explicit None disables retrying
-Effective(c) == IF c.perreq.k = "unset" THEN c.client ELSE c.perreq
+\* (cfg.perreq2, where present, is the per-request strategy of the SECOND request made on the same client)
+PerReq == IF Len(past) >= 1 /\ "perreq2" \in DOMAIN cfg THEN cfg.perreq2 ELSE cfg.perreq
+Effective(c) == IF PerReq.k = "unset" THEN c.client ELSE PerReq
 Strategy == Effective(cfg)
 Retrying == Strategy.k = "strategy"
 
@@ -122,7 +124,7 @@ SleepsAreBackoffPrefix == /\ Len(sleeps) <= N
                           /\ (Done => Len(sleeps) = sent - 1)         \* one pause between consecutive sends, none before the first / after the last
                           /\ (~Done => Len(sleeps) \in {sent - 1, sent} \/ sent = 0)
 LastOutcomeUnchanged == Done => (result.o = script[Len(script)] /\ result.k = (IF result.o \in ExcOutcomes THEN "raise" ELSE "response"))
-PerRequestReplaces == (cfg.perreq.k = "none" => sent <= 1) /\ (cfg.perreq.k = "strategy" => N = cfg.perreq.s.n)
+PerRequestReplaces == (PerReq.k = "none" => sent <= 1) /\ (PerReq.k = "strategy" => N = PerReq.s.n)
 \* C19
 Begins(t, a)  == Cardinality({j \in DOMAIN tlog : tlog[j].t = t /\ tlog[j].attempt = a /\ tlog[j].what = "begin"})
 Ends(t, a)    == Cardinality({j \in DOMAIN tlog : tlog[j].t = t /\ tlog[j].attempt = a /\ tlog[j].what \in {"end", "error"}})
